@@ -60,7 +60,7 @@
 //!                                                                              `}}` follows, else any Fatal
 //!                                                                              expression kind
 //!  binding-inner append ` +` / ` ? 1` / ` (` / ` [` / ` .` / ` &&` / an unterminated  any kind                    Warn
-//!                string (also cut by a line break) to a complete expression
+//!                string (also cut by a line break, also as an operand) to a complete expression
 //!  binding-junk  insert ` x` / ` )` / ` #` / ` ]` / ` <astral>` before `}}`     UnexpectedExpressionChar.   Fatal
 //!  wx-directive  add `wx:foo="x"` / `wx:show="{{a}}"` / `wx:For` to a tag       InvalidAttributePrefix      Warn
 //!  attr-prefix   add `foo:bar="x"` / `binds:tap="h"` / `a:b:c` / `Wx:if=..`     InvalidAttributePrefix      Warn
@@ -1047,8 +1047,8 @@ fn injections(t: &Tpl, mut f: impl FnMut(Defect, String) -> bool) {
         // binding-inner: the complete expression is continued by something that cannot end an expression -- a dangling
         // operator, an unfinished ternary, an unclosed bracket, a member access without a name, an unterminated string
         // (also one cut by a line break).  Whatever follows, the binding is broken: a diagnostic at Warn or above is due.
-        const INNER: [&str; 9] = [" +", " ? 1", " (", " [", " .", " 'abc", " 'abc\n", " \"q\n ", " &&"];
-        for k in 0..4 { emit!(Defect::BindingInner, splice(s, b.close..b.close, INNER[(bi * 4 + k) % 9])); }
+        const INNER: [&str; 12] = [" +", " ? 1", " (", " [", " .", " 'abc", " 'abc\n", " \"q\n ", " &&", " + 'abc\n", " || \"q\r\n", " + 'abc"];
+        for k in 0..5 { emit!(Defect::BindingInner, splice(s, b.close..b.close, INNER[(bi * 5 + k) % 12])); }
     }
 }
 
